@@ -30,6 +30,9 @@ enum Atom {
     /// an alias `v.clone().untracked()` (or `.tracked()` for an untracked v) is made right after
     /// v's creation and only held: the gradient must be visible through it as well
     FlagAlias(usize),
+    /// after the pass an alias of v is made and re-flagged (`v.clone().untracked()`, optionally
+    /// followed by `.tracked()`): flag transitions on a clone must not touch the shared gradient
+    PostPassAlias(usize, bool),
 }
 
 fn fmt_atom(a: &Atom) -> String {
@@ -43,6 +46,7 @@ fn fmt_atom(a: &Atom) -> String {
         Atom::ReadAfter(v) => format!("read-via-clone-made-after-pass(v{})", v),
         Atom::Reflag(v, k) => format!("flag-round-trip(v{},after-node{})", v, k),
         Atom::FlagAlias(v) => format!("held-alias-with-flipped-flags(v{})", v),
+        Atom::PostPassAlias(v, again) => format!("alias-reflagged-after-pass(v{},{})", v, if *again { "untracked-then-tracked" } else { "untracked" }),
     }
 }
 
@@ -101,11 +105,11 @@ fn script(p: &Program, ops: &[OpK], root: usize, atoms: &[Atom], tracked: &[bool
                 if v == root || last_use(v) != Some(*k) || atoms.contains(&Atom::DropAfterLastUse(v)) {
                     return None;
                 }
-                if atoms.iter().any(|b| matches!(b, Atom::ReadBefore(x) | Atom::ReadAfter(x) if *x == v)) {
+                if atoms.iter().any(|b| matches!(b, Atom::ReadBefore(x) | Atom::ReadAfter(x) | Atom::PostPassAlias(x, _) if *x == v)) {
                     return None;
                 }
             }
-            Atom::ReadBefore(v) | Atom::ReadAfter(v) => {
+            Atom::ReadBefore(v) | Atom::ReadAfter(v) | Atom::PostPassAlias(v, _) => {
                 if atoms.contains(&Atom::DropAfterLastUse(*v)) {
                     return None;
                 }
@@ -223,6 +227,20 @@ fn script(p: &Program, ops: &[OpK], root: usize, atoms: &[Atom], tracked: &[bool
         }
     }
     for v in 0..nv {
+        for again in [false, true] {
+            if atoms.contains(&Atom::PostPassAlias(v, again)) {
+                let s = slot_of[v]?;
+                let c = fresh();
+                acts.push(Act::Clone { src: s as u8, dst: c as u8 });
+                acts.push(Act::Flag { slot: c as u8, kind: if tracked[v] { 1 } else { 0 } });
+                if again {
+                    acts.push(Act::Flag { slot: c as u8, kind: if tracked[v] { 0 } else { 1 } });
+                }
+                views[v].push(c);
+            }
+        }
+    }
+    for v in 0..nv {
         if let Some(s) = slot_of[v] {
             views[v].push(s);
         }
@@ -290,6 +308,8 @@ fn atoms_for(p: &Program, root: usize) -> Vec<Atom> {
         out.push(Atom::ReadBefore(v));
         out.push(Atom::ReadAfter(v));
         out.push(Atom::FlagAlias(v));
+        out.push(Atom::PostPassAlias(v, false));
+        out.push(Atom::PostPassAlias(v, true));
         let first = if v < p.nl() { 0 } else { v - p.nl() };
         for k in first..p.nodes.len() {
             out.push(Atom::Reflag(v, k));
@@ -346,6 +366,75 @@ pub fn explore(opts: &Opts) -> Explored {
                         }
                     } else if n > singles_upto {
                         combos.clear();
+                    }
+                    // an untracked clone used as an operand behaves exactly like an independent untracked
+                    // copy of the values - also in a second pass over the same graph
+                    for (k, node) in p.nodes.iter().enumerate() {
+                        for (pos, &a) in node.args.iter().enumerate() {
+                            if a >= p.nl() || !tracked[a] {
+                                continue;
+                            }
+                            let case = || format!("{} mask={:03b} root=v{} frozen-alias(node{},arg{}) two passes", p.describe(), m, root, k, pos).replace(' ', "");
+                            if !l.want(&case) {
+                                continue;
+                            }
+                            // slots: values 0..nv, then untracked copies of the leaves, then one temporary
+                            let nv = p.nv();
+                            let copy_slot = nv + a;
+                            let temp = nv + p.nl();
+                            let mut cfg2 = cfg.clone();
+                            for lf in pool.iter() {
+                                cfg2.leaves.push(LeafSpec { dims: lf.dims.clone(), vals: lf.vals.clone(), tracked: false });
+                            }
+                            // the copies live right behind the original leaves in the initial state,
+                            // so the op nodes are shifted by nl in these two scripts
+                            let shift = |v: usize| if v < p.nl() { v } else { v + p.nl() };
+                            let mk = |through_clone: bool| -> Script {
+                                let mut acts = Vec::new();
+                                for (kk, n2) in p.nodes.iter().enumerate() {
+                                    let mut args: Vec<u8> = n2.args.iter().map(|x| shift(*x) as u8).collect();
+                                    let mut drop_temp = false;
+                                    if kk == k {
+                                        if through_clone {
+                                            acts.push(Act::Clone { src: a as u8, dst: (temp + p.nl()) as u8 });
+                                            acts.push(Act::Flag { slot: (temp + p.nl()) as u8, kind: 1 });
+                                            args[pos] = (temp + p.nl()) as u8;
+                                            drop_temp = true;
+                                        } else {
+                                            args[pos] = (p.nl() + a) as u8;
+                                        }
+                                    }
+                                    acts.push(Act::Build { op: ops.iter().position(|o| o == &n2.op).unwrap() as u8, args: args.into(), dst: shift(p.nl() + kk) as u8 });
+                                    if drop_temp {
+                                        acts.push(Act::Drop { slot: (temp + p.nl()) as u8 });
+                                    }
+                                }
+                                acts.push(Act::Backward { slot: shift(root) as u8, seed: 0 });
+                                acts.push(Act::Backward { slot: shift(root) as u8, seed: 0 });
+                                let views = (0..nv).map(|v| vec![shift(v)]).collect();
+                                Script { acts, views, nslots: temp + p.nl() + 1 }
+                            };
+                            let _ = copy_slot;
+                            let (sa, sb) = (mk(true), mk(false));
+                            l.transitions += 2;
+                            l.validated += 1;
+                            match (run_script(&cfg2, &sa), run_script(&cfg2, &sb)) {
+                                (Ok(oa), Ok(ob)) => {
+                                    for v in 0..nv {
+                                        if let (Some(x), Some(y)) = (&oa[sa.views[v][0]], &ob[sb.views[v][0]]) {
+                                            if let Err(e) = same_obs(y, x) {
+                                                l.violation("frozen-alias", case(), format!("v{}: independent untracked copy vs untracked clone as operand: {}", v, e));
+                                                break;
+                                            }
+                                        }
+                                    }
+                                }
+                                (Err(e), _) | (_, Err(e)) => {
+                                    l.violation("frozen-alias", case(), format!("panicked: {}", e));
+                                }
+                            }
+                            let _ = take_user_log();
+                        }
                     }
                     for combo in &combos {
                         let sc = match script(p, &ops, root, combo, &tracked) {
@@ -404,7 +493,7 @@ pub fn explore(opts: &Opts) -> Explored {
     Explored {
         local,
         bounds: json!({"base_programs": *progs.lock().unwrap(), "max_nodes": 3, "ops": ops.iter().map(|o| o.name()).collect::<Vec<_>>(), "masks": masks,
-                       "perturbation_atoms": ["temporary clone of one operand", "variable cloned after creation, clone used for all / each single later use", "handle dropped right after its last use", "result re-bound over its first operand", "pass started from a clone of the root", "gradient read through a clone made before the pass", "gradient read through a clone made after the pass", "flag round trip that restores the handle's flags at any later point", "held alias with flipped flags"],
+                       "perturbation_atoms": ["temporary clone of one operand", "variable cloned after creation, clone used for all / each single later use", "handle dropped right after its last use", "result re-bound over its first operand", "pass started from a clone of the root", "gradient read through a clone made before the pass", "gradient read through a clone made after the pass", "flag round trip that restores the handle's flags at any later point", "held alias with flipped flags", "alias re-flagged after the pass", "operand through an untracked clone vs an independent untracked copy, two passes"],
                        "deviation_bound": format!("every single atom for programs of <= {} nodes, every pair of atoms for programs of <= {} nodes", singles_upto, pairs_upto)}),
         rule: "every base program x masks x roots x every single (and pair of) handle perturbation(s): values and gradients of every handle surviving in the perturbed run, seen through every alias (main handle, persistent clone, clones made before/after the pass), must be bit-identical to the base run (implementation against implementation, no reference)".into(),
         exhaustive: true,
